@@ -60,6 +60,8 @@ def run_script(src: str, passes: int, max_lines: int = 200000, extra_patch=None)
 
     g = {"__name__": "__reduino_script__"}
     err = None
+    old_digits = sys.get_int_max_str_digits()
+    sys.set_int_max_str_digits(0)          # str() of a huge int is Python semantics too; the 4300-digit guard is an interpreter setting
     try:
         compiled = compile(code, "<script>", "exec")
         sys.settrace(tracer)
@@ -74,6 +76,7 @@ def run_script(src: str, passes: int, max_lines: int = 200000, extra_patch=None)
     finally:
         comm.SerialMonitor.write = orig_write
         utils.sleep = orig_sleep
+        sys.set_int_max_str_digits(old_digits)
     return events, err
 
 
